@@ -216,7 +216,7 @@ where
                         MIN_REQUIRED
                     };
                     if remaining < req {
-                        *state = DecoderState::ReadingAddressedHeader(flags);
+                        *state = DecoderState::ReadingRegistration(flags);
                         break Ok(None);
                     }
                     let mut bytes = src.as_ref();
@@ -233,7 +233,7 @@ where
 
                     let required = total_len(&[host_len, node_len, lane_len, ID_LEN])?;
                     if bytes.remaining() < required {
-                        *state = DecoderState::ReadingAddressedHeader(flags);
+                        *state = DecoderState::ReadingRegistration(flags);
                         break Ok(None);
                     }
                     let host = if has_host {
